@@ -118,6 +118,8 @@ def prefix_lists(rng, quick):
         list(README_DEFAULT_PREFIXES) + ["100.64.0.0/10"],
         # bare entries (no /len) name one address, also when they end in zero octets
         ["10.20.30.0"], ["10.0.0.0", "172.16.0.0"], ["192.168.2.0/24"], ["50.60.0.0/16", "50.61.70.0"],
+        # the same networks written with a netmask or a hostmask instead of a length (ipaddress accepts all three)
+        ["77.0.0.0/255.0.0.0"], ["77.0.0.0/0.255.255.255", "10.0.0.0/255.0.0.0"], ["192.168.2.0/255.255.255.0", "20.1.2.3/255.255.255.255"],
     ]
     out = list(fixed)
     for _ in range(3 if quick else 12):
@@ -131,7 +133,7 @@ def address_lists(rng, quick):
              ["10.0.0.0/24"], ["192.168.0.0/24", "172.16.0.0/16"], ["0.0.0.0/8", "128.0.0.0/9"], ["10.0.0.0/16", "10.0.0.0/8"],
              ["10.1.0.0/16", "10.0.0.0/8"], ["10.0.0.0/8", "10.1.0.0/16", "10.1.2.0/24"], list(RFC1918) + ["10.1.0.0/16"],
              ["192.168.128.0/17", "192.168.0.0/16", "172.20.0.0/14"], ["50.0.0.0/7", "51.2.0.0/15", "51.3.3.0/24"],
-             ["10.20.30.0"], ["10.0.0.0"], ["192.168.0.0", "11.11.0.0"],
+             ["10.20.30.0"], ["10.0.0.0"], ["192.168.0.0", "11.11.0.0"], ["77.1.0.0/255.255.0.0"], ["11.11.11.0/0.0.0.255", "12.0.0.0/255.0.0.0"],
              # dual-stack lists: an IPv6 block before / between IPv4 blocks
              ["2001:db8::/32", "203.0.113.0/24"], ["10.0.0.0/8", "fd00::/8", "11.11.11.0/24"], ["2001:db8:aa::/48", "11.11.11.11", "12.20.0.0/16"]]
     out = list(fixed)
